@@ -328,6 +328,7 @@ def run(ctx, rep, tier):
                               f"malloc size {e.b} is not the full declared size of the string")
     if n_free < 2 or n_malloc < 4:
         raise AnalysisError(f"C03.f: {n_free} free / {n_malloc} malloc template sites (floors 2 / 4)")
+    check_alloc_only_heap(rep, model, E, "C03.f")
     # free() covers all heap strings
     fp = E.enumerate("CodegenCtx._generate_free_implementation")
     ok_cov = False
@@ -717,3 +718,26 @@ def check_integer_containing(rep, model):
                 chain(ifs[0], sg)
     if not found or n < 6:
         raise AnalysisError("_integer_containing: threshold chains not found")
+
+
+def check_alloc_only_heap(rep, model, E, RULE):
+    """allocation events (malloc / free / = NULL) are only ever emitted for heap-allocated string outputs"""
+    for cl in model.concrete_subclasses("Action"):
+        if cl == "Action":
+            continue
+        fp = E.enumerate(ACT, classes={"action": cl})
+        done = set()
+        for p in fp.paths:
+            if p.end and p.end[0] == "raise":
+                continue
+            v = p.valuation()
+            for e in events_of(list(_flat_lines(fp.lines(p)))):
+                if e.kind in ("FREE", "MALLOC", "NULLIFY"):
+                    is_str = v.get(f"{OUT}.type == OutputStorageType.STR")
+                    heap = v.get("F:ALLOCATE_STR_SPACE_DYNAMIC") is True or v.get("F:ALLOCATE_STR_SPACE_DYNAMIC_ON_DEMAND") is True
+                    k = (cl, e.kind, is_str, heap)
+                    if k in done:
+                        continue
+                    done.add(k)
+                    rep.check(is_str is True and heap, RULE, ACT, f"{cl}: {e.kind} only on a heap string [STR={is_str}, heap={heap}]",
+                              f"`{e.text.strip()}` can be emitted for an output that is not a heap-allocated string (raw outputs are scalars: free() of an integer member)")
